@@ -187,7 +187,7 @@ impl<'a> ScriptEvaluator<'a> {
                 Some((l, w)) => r is Ok && r->Ok_0 == l && l <= u32::MAX && final(self).ip == old(self).ip + w,
                 None => r matches Err(ScriptError::UnexpectedEof),
             },
-//@before `let data_len = if let Class::PushBytes(n) = opcode_class {`
+//@before `let data_len`
         proof { lemma_class_pushbytes(opcode.code); lemma_le_bounds(); }
 //@end
 
@@ -201,7 +201,7 @@ impl<'a> ScriptEvaluator<'a> {
                     && data_small(r->Ok_0.elements@),
                 None => r matches Err(ScriptError::UnexpectedEof),
             },
-//@before `while self.ip < self.n_bytes {`
+//@before `while self.ip`
         let ghost b = self.bytes@;
 //@loop 1
             invariant
@@ -210,22 +210,22 @@ impl<'a> ScriptEvaluator<'a> {
                 //# C06:inv_tokens_so_far
                 toks(b, 0) == (match toks(b, self.ip as int) { Some(rest) => Some(toks_of(elements@) + rest), None => None::<Seq<Tok>> }),
             decreases self.n_bytes - self.ip,
-//@before `let opcode = Opcode::from(self.bytes[self.ip]);`
+//@before `let opcode =`
             let ghost ip0 = self.ip as int;
             let ghost es0 = elements@;
-//@after `let data = Vec::from(&self.bytes[self.ip..self.ip + data_len]);`
+//@after `let data = Vec`
                     assert(data@ =~= b.subrange(self.ip as int, self.ip + data_len));
 //@after `self.ip += data_len;`
                     proof {
                         assert(toks_of(elements@) =~= toks_of(es0).push(Tok::Data(b.subrange(self.ip - data_len, self.ip as int))));
                         assert(forall|rest: Seq<Tok>| toks_of(es0) + (seq![Tok::Data(b.subrange(self.ip - data_len, self.ip as int))] + rest) =~= toks_of(elements@) + rest);
                     }
-//@after `elements.push(StackElement::Op(opcode));`
+//@after `elements.push(StackElement::Op`
                 proof {
                     assert(toks_of(elements@) =~= toks_of(es0).push(Tok::Op(b[ip0])));
                     assert(forall|rest: Seq<Tok>| toks_of(es0) + (seq![Tok::Op(b[ip0])] + rest) =~= toks_of(elements@) + rest);
                 }
-//@before `let pattern = ScriptEvaluator::eval_script_pattern(&elements);`
+//@before `let pattern =`
         proof { assert(toks_of(elements@) + Seq::<Tok>::empty() =~= toks_of(elements@)); }
 //@end
 
